@@ -6,6 +6,9 @@ use crate::dot::DotBuilder;
 use crate::http::Request;
 #[cfg(feature = "dot")]
 use dot_graph::{Edge, Graph, Node};
+#[cfg(kani)]
+use crate::verif_shim::map::{HashMap, HashSet};
+#[cfg(not(kani))]
 use std::collections::{HashMap, HashSet};
 use std::sync::Arc;
 
